@@ -439,6 +439,13 @@ def _extract_class(src, mod: Module, c: ast.ClassDef, menv: dict, done: dict) ->
             scoped.append(r2)
         rules = scoped
 
+    if ignore_chars:
+        # sly tests `text[index] in ignore` before it tries the master regex and skips that one character: the same as a silent
+        # one-character rule in front of all others
+        import re as _re
+        cls_pat = "[" + "".join(_re.escape(ch) if ch in "\\]^-[" else ch for ch in ignore_chars) + "]"
+        node0 = next((st for st in c.body if isinstance(st, ast.Assign) and any(isinstance(t, ast.Name) and t.id == "ignore" for t in st.targets)), c)
+        rules = [Rule("ignore", cls_pat, "trivia", None, node0, mod.site(node0))] + [r for r in rules if r.name != "ignore"]
     ef = None
     for st in c.body:
         if isinstance(st, ast.FunctionDef) and st.name == "error":
@@ -477,7 +484,8 @@ SLY_LEX_ANCHORS = [
     ("Lexer._build", "part = f'(?P<{tokname}>{pattern})'", "one named group per rule"),
     ("Lexer._build", "cls._master_re = cls.regex_module.compile('|'.join(parts), cls.reflags)",
      "master regex is the ordered alternation"),
-    ("Lexer.tokenize", r"re:m = [\w.]*master_re\.match\(text, index\)", "match at the current index (the table may be held in a local or in a record)"),
+    ("Lexer.tokenize", r"re:m = [\w.]*master_(re\.)?match\(text, index\)",
+     "match at the current index (the pattern or its bound match method may be held in a local or in a record)"),
     ("Lexer.tokenize", "tok.type = m.lastgroup", "token type = the alternative that matched"),
     ("Lexer.tokenize", "tok = self.error(tok)", "error() is called when nothing matches"),
     ("Lexer.tokenize", "index = self.index", "lexing resumes where error()/actions leave self.index"),
@@ -520,6 +528,9 @@ def check_sly_anchors(src: Source, anchors=SLY_LEX_ANCHORS, rel="sly/lex.py") ->
                     "match", "search", "fullmatch", "finditer", "scanner", "find", "index", "startswith", "partition", "split"):
                 if any(isinstance(a_, ast.Name) and a_.id in ("text", "index") for a_ in c.args) or dotted(c.func.value) in ("text", "self.text"):
                     consumers.append(norm(c))
+            elif isinstance(c, ast.Call) and isinstance(c.func, ast.Name) and "match" in c.func.id and any(
+                    isinstance(a_, ast.Name) and a_.id == "text" for a_ in c.args):
+                consumers.append(norm(c))        # a bound match method kept in a local
         if len(consumers) != 1:
             raise AnalysisError(f"vendored sly changed: {rel}:Lexer.tokenize advances over the text in {len(consumers)} ways "
                                 f"({'; '.join(x[:50] for x in consumers)}); the lexer model knows the master regex only")
